@@ -49,6 +49,8 @@ pub struct PairWorld {
     pub burned: [u128; 2],
     pub first_deposit_done: bool,
     pub ops: Vec<String>,
+    /// list the assets of the next ProvideLiquidity message in reverse pool order
+    pub reverse_order: bool,
 }
 
 fn fees_of(resp: &pm::ProtocolFeesResponse, assets: &[AssetRef; 2]) -> [u128; 2] {
@@ -126,7 +128,7 @@ impl PairWorld {
         }
         funds.sort_by(|a, b| a.denom.cmp(&b.denom));
         let msg = pm::ExecuteMsg::ProvideLiquidity {
-            assets: [self.pair.assets[0].asset(d[0]), self.pair.assets[1].asset(d[1])],
+            assets: if self.reverse_order { [self.pair.assets[1].asset(d[1]), self.pair.assets[0].asset(d[0])] } else { [self.pair.assets[0].asset(d[0]), self.pair.assets[1].asset(d[1])] },
             slippage_tolerance: slip,
             receiver: receiver.map(|r| r.to_string()),
         };
@@ -233,7 +235,7 @@ pub fn build_pair_world(r: &mut Rng, kind: Kind, variant: u64) -> PairWorld {
             }
         }
     }
-    PairWorld { app, core, pair, kind, amp, fees, users, tokens, charged: [0; 2], sent: [0; 2], burned: [0; 2], first_deposit_done: false, ops: vec![] }
+    PairWorld { app, core, pair, kind, amp, fees, users, tokens, charged: [0; 2], sent: [0; 2], burned: [0; 2], first_deposit_done: false, ops: vec![], reverse_order: false }
 }
 
 fn u(s: &str) -> u128 {
@@ -1035,7 +1037,13 @@ pub fn run_history(acc: &mut Acc, r: &mut Rng, kind: Kind, variant: u64, steps: 
                 _ => None,
             };
             what = format!("provide {d:?}");
+            wd.reverse_order = r.chance(1, 2);
+            if wd.reverse_order {
+                acc.count("provide.assets-listed-in-reverse-pool-order");
+                wd.log("   (next deposit lists its assets in reverse pool order)".to_string());
+            }
             ok = monitored_provide(acc, &mut wd, user, d, receiver, slip);
+            wd.reverse_order = false;
             class.push(1);
         } else if op < 40 {
             let have = bal_cw20(&wd.app, &wd.pair.lp, &wd.users[user]);
